@@ -5,7 +5,7 @@ CORE = "routee-compass-core"
 F = CORE + "/src/util/compact_ordered_hash_map.rs"
 k_unit = KaniUnit("c11_k", CORE, modules=[dict(file=F, src="c11_container.rs")],
                   harnesses=[])  # c11_small_sequences (symbolic sequences <= 4 over 2-bit keys) exceeds 15 min in CBMC: not registered
-k_unit.native_witnesses = ["c11_wit_seven_keys", "c11_wit_new_unique"]
+k_unit.native_witnesses = ["c11_wit_seven_keys", "c11_wit_new_unique", "c11_wit_collect_is_successive_insertion"]
 v_unit = VerusUnit("c11_container", "c11_container", rlimit=60, paired_kani=(k_unit, []))
 sm = VerusUnit('c03_statemodel', 'c03_statemodel', rlimit=60)
 ew = KaniUnit("c11_extend_wit", CORE, modules=[dict(file=CORE + "/src/model/state/state_model.rs", src="c11_extend_wit.rs")], harnesses=[])
@@ -14,14 +14,15 @@ ex = VerusUnit("c11_extend", "c11_extend", rlimit=30, paired_kani=(ew, []))
 cw = KaniUnit("c11_collect_wit", "routee-compass", modules=[dict(file="routee-compass/src/app/search/search_app_ops.rs", src="c11_collect_wit.rs")], harnesses=[])
 cw.native_witnesses = ["c11_wit_query_declarations_come_after_the_models_features"]
 ins = VerusUnit("c11_instance", "c11_instance", rlimit=30)
-UNITS = [v_unit, sm, ex, ins, k_unit, ew, cw]
+ft = VerusUnit("c11_feature", "c11_feature", rlimit=30)
+UNITS = [v_unit, sm, ex, ins, ft, k_unit, ew, cw]
 EXPLANATION = ("CompactOrderedHashMap::{empty,len,is_empty,contains_key,get,get_index,insert} extracted verbatim and verified by Verus at every size "
                "against an abstract (slot map, value map) view with a whole-view postcondition for insert; representation invariant: slots < len, pairwise distinct; "
                "StateModel::extend (verbatim, Verus, any number of entries): the per-query model is the configured container with every declared (name, feature) inserted in order -- an existing name keeps its slot "
-               "and takes the declared feature, new names are appended; refused exactly when a declaration meets a same-named feature that differs under StateFeature's ==; StateModel accessors: frame (unit c03_statemodel); "
+               "and takes the declared feature, new names are appended; refused exactly when a declaration meets a same-named feature that differs under StateFeature's ==; StateModel accessors: frame (unit c03_statemodel); StateFeature::get_initial / StateModel::initial_state (unit c11_feature, verbatim): the initial state has exactly n entries, entry i holding the DECLARED initial value of the feature at slot i, for every kind; an initial value that cannot be encoded is an error; "
                "SearchApp::build_search_instance (verbatim, Verus, callees through deterministic contracts): the per-query state model IS the configured model extended by the features collected for this query, and the cost model "
                "and the frontier model are built against THAT model -- the one the search instance carries -- never the configured one (the same unit carries SearchApp::run and its two oriented variants: see C01)")
 NOT_DECIDED = ("get_pair / keys / iter / to_vec / new on the HashMap-backed representation (sizes >= 5) are only exercised by concrete witnesses "
-               "(Verus rejects their iterator-adapter text, CBMC cannot carry symbolic HashMap keys); StateModel::new / initial_state / iter (iterator adapters; witnesses); the clone pipeline at the head of extend (assumed equal container; witness); collect_features (HashMap pipelines: witness only)")
+               "(Verus rejects their iterator-adapter text, CBMC cannot carry symbolic HashMap keys); StateModel::new / iter (iterator adapters; witnesses); FromIterator (witness); the clone pipeline at the head of extend (assumed equal container; witness); collect_features (HashMap pipelines: witness only)")
 ASSUMPTIONS = ["R6: key and value types instantiated at u64 (Eq/Hash/Clone laws of the real key types String/EdgeId assumed)",
                "assumed contract of std HashMap::from([(K,V); N]) (inserts the pairs in order)"]
